@@ -13,7 +13,7 @@ restore() { git -C $WT checkout -- . ; git -C $WT clean -fdq; }
 trap restore EXIT
 git -C $WT apply "$d/patch.diff" || { echo "patch does not apply"; exit 2; }
 for c in "$@"; do
-  out=$(VERIF_REPO=$WT ./check "$c" --no-evidence 2>&1); rc=$?
+  out=$(VERIF_REPO=$WT C05_REPO=$WT VERIF_C15_TREE=$WT ./check "$c" --no-evidence 2>&1); rc=$?
   if echo "$out" | grep -q "^VIOLATION property=$c"; then
     echo "DETECTED $c (exit $rc): $(echo "$out" | grep -A1 "^VIOLATION" | grep signature | head -3 | cut -c1-260 | tr '\n' ';')"
   elif [ $rc -ne 0 ]; then
